@@ -27,7 +27,30 @@ CLAIMS = {
             "and compared with spec and model.",
             "Lean kernel + standard axioms; hand model validated by differential execution on explored histories; contract: named objects alive, "
             "subscribe_ given a receiver not currently subscribed"),
+    "C14": ("proof", "Lean 4 theorems over an executable model of SystemManager/ASystem + correspondence (implementation's order judged by the decidable ValidOrder)",
+            "reorder_perm/respects/priority/fails_iff_cyclic, update_each_once, lifecycle_legal, removed_never_updated, remove_keeps_running proved for all "
+            "constraint graphs, priorities, groups and add/remove/init/update histories; the implementation's own update order and callback traces are fed to "
+            "the Lean driver, which evaluates ValidOrder/ValidUpdate and the lifecycle acceptor on them (equal-priority order is never compared).",
+            "Lean kernel + standard axioms; hand model validated by differential execution on explored graphs/histories (exhaustive on <= 3-4 systems); "
+            "contract: unique system names; removeSystem after an already reported contradictory ordering terminates (noexcept) - outside the generated histories"),
 }
+WORLD_NOTE = ("Lean kernel + standard axioms for the theorems that exist; hand-written world model and spec tied to /repo by differential execution on the "
+              "explored op files only; locked API calls taken as atomic; contract of DESIGN.md 3.3; component values are opaque tokens")
+for _pid, _what in {
+    "C01": "id table / free list / validity of every handle ever issued after every step, locked creation from scripted dispatcher threads",
+    "C02": "component values and archetype membership of every entity after every structural change, storage-chunk capacity 2",
+    "C03": "instrumented component types (per-address live/dead automaton, live counts, afterAssign/beforeRemove), teardown with non-empty buffers",
+    "C05": "locked sections from several scripted dispatcher threads, nested locks, snapshot isolation while locked, flush = sequential meaning",
+    "C09": "every issued handle, null, foreign and random 64-bit patterns to every checked entry point, immediate and deferred",
+    "C12": "shared assign/replace/remove mixed with ordinary/builder edits and creation with shared types; instance identity classes",
+    "C13": "random dependency graphs incl. cycles; all ways of gaining a component, immediate and deferred",
+}.items():
+    CLAIMS[_pid] = ("other", "executable Lean world model + abstract Lean spec run against the library on the same op files (correspondence tie + spec oracle); "
+                    "Lean theorems for this property in progress",
+                    "The real library (ASan+UBSan), the Lean world model (mirrors id table, locations, archetype rows, command buffers) and the Lean abstract "
+                    "spec (entities as finite maps, deferred commands = sequential meaning) execute the same corpus and generated op files; every observation "
+                    "is diffed (model = tie, spec = property oracle): " + _what + ". Claimed as 'other' until the theorem file of this property is complete.",
+                    WORLD_NOTE)
 
 DESIGN_REF = {i: "DESIGN.md section 4, ### %s" % i for i in ["C%02d" % k for k in range(1, 19)]}
 
